@@ -403,9 +403,8 @@ fn req_params(kind: &str, file: &str, line: u32, col: u32, extra: &str) -> Value
 fn canonical(v: &Value) -> Value {
     match v {
         Value::Array(a) => {
-            let mut items: Vec<Value> = a.iter().map(canonical).collect();
-            items.sort_by_key(|x| x.to_string());
-            Value::Array(items)
+            // order counts: an answer whose items come out in hash order differs from process to process
+            Value::Array(a.iter().map(canonical).collect())
         }
         Value::Object(o) => {
             let mut m = serde_json::Map::new();
